@@ -201,6 +201,21 @@ func (g *Gen) Object(depth int, defs []string, typed bool) *Schema {
 			x.Required = append(x.Required, name)
 		}
 	}
+	if typed && g.R.Chance(1, 3) {
+		// additionalProperties in its boolean and its schema form, a title: the analyser looks at none of them
+		x.Noise = map[string]interface{}{}
+		switch g.R.Intn(4) {
+		case 0:
+			x.Noise["additionalProperties"] = false
+		case 1:
+			x.Noise["additionalProperties"] = true
+		case 2:
+			x.Noise["additionalProperties"] = map[string]interface{}{"type": "string"}
+		case 3:
+			x.Noise["title"] = "A titled object"
+		}
+		g.hit("schema:object-noise")
+	}
 	return x
 }
 
